@@ -66,7 +66,14 @@ class BoolT(TypeGen):
 
 
 class RealT(TypeGen):
+    """A float: finite (a real number), or with nonfinite=True possibly inf / nan (finiteness flag symbolic)."""
+
+    def __init__(self, nonfinite=False):
+        self.nonfinite = nonfinite
+
     def make(self, ctx, name):
+        if self.nonfinite:
+            return SReal(tm.var(name, tm.REAL), tm.var(name + '.fin', tm.BOOL))
         return SReal(tm.var(name, tm.REAL))
 
 
@@ -565,6 +572,8 @@ def concretize(v, env, funs=REAL_FUNS):
     if isinstance(v, SErr):
         return ERRORS[tm.evaluate(v.t, env, funs)]
     if isinstance(v, SReal):
+        if v.fin is not None and not tm.evaluate(v.fin, env, funs):
+            return float('inf')
         return float(tm.evaluate(v.t, env, funs))
     if isinstance(v, Sym):
         return tm.evaluate(v.t, env, funs)
